@@ -52,7 +52,11 @@ def check_C01(run):
     cases, g = stage_gen_trees(run, checks_parser.QUICK_KINDS if run.tier == "quick" else checks_parser.THOROUGH_KINDS, 2, ws=0, muts=2)
     res, _, _ = stage_groups(run, cases, observe=True, prints=True)
     stage_judge_trees(run, res, "C01", cases)
-    run.notes.append("adversarial families (%d shapes) at sizes %s" % (30, sizes))
+    # every leaf form (empty strings, repeated values, every number spelling ...) under every operator, with all observables
+    casesz, gz = stage_gen_trees(run, checks_parser.ALL_KINDS, 1, ws=0, muts=1, name="gen_zoo")
+    resz, _, _ = stage_groups(run, casesz, observe=True, prints=True, name="parse_zoo")
+    stage_judge_trees(run, resz, "C01", casesz, name="judge_zoo")
+    run.notes.append("adversarial families (%d shapes) at sizes %s" % (37, sizes))
 
 
 CHECKS = {"C01": check_C01}
